@@ -280,4 +280,4 @@ func c06Reencode(v int, pkt packets.Packet, c *ev.Case, feats []any) *ev.Violati
 	return nil
 }
 
-func c06HasFFFD(s string) bool { return strings.Contains(s, "�") }
+func c06HasFFFD(s string) bool { return strings.Contains(s, "\ufffd") }
